@@ -39,6 +39,9 @@ def run(F, X, rep):
     c18_l1(F, X, rep, bodies)
     c18_l2(F, X, rep, bodies)
     c18_u(F, X, rep, bodies)
+    import rules_lc as R
+    import rules_hh as H
+    H.g1_lookup_by_type(R.Ctx.get(F, X), rep, "C18-G")
 
 
 # ---------------------------------------------------------------------------- P
